@@ -94,6 +94,31 @@ func (w *World) CraftFork(base, prefix string, n, badAt int, kind string) ([]typ
 	cm := w.ManagerAt(base) // oracle for the valid prefix
 	var out []types.Block
 	bogusChain := false
+	_ = bogusChain
+	if kind == "extrapayoutbase" || kind == "payoutvaluebase" {
+		// instant-sync attack through the checkpoint BLOCK: the honest base block is served with its
+		// genuine state but with an extra made-up miner payout appended (or the single payout's value
+		// inflated) -- the v2 id and the commitment do not cover either -- and every block of the fork
+		// is valid relative to the state derived from that altered block.
+		bb := w.Block(base)
+		pcs, ok := w.StateOf(bb.ParentID)
+		if !ok || bb.V2 == nil {
+			return nil, fmt.Errorf("CraftFork: %s needs a v2 base block", kind)
+		}
+		alt := bb
+		if kind == "extrapayoutbase" {
+			alt.MinerPayouts = append(append([]types.SiacoinOutput(nil), bb.MinerPayouts...), types.SiacoinOutput{Address: types.Address{0xee}, Value: types.Siacoins(1000000)})
+		} else {
+			alt.MinerPayouts = []types.SiacoinOutput{{Address: bb.MinerPayouts[0].Address, Value: bb.MinerPayouts[0].Value.Add(types.Siacoins(1000000))}}
+		}
+		if alt.ID() != bb.ID() {
+			return nil, fmt.Errorf("CraftFork: altered base block changed its id")
+		}
+		w.setCheckpointBlock(bb.ID(), alt)
+		cs, _ = consensus.ApplyBlock(pcs, alt, consensus.V1BlockSupplement{}, time.Time{})
+		bogusChain = true
+		badAt = -2
+	}
 	if kind == "bogusbase" {
 		// instant-sync attack on the FIRST request: the checkpoint for the (honest) base block is
 		// served with a bogus parent state, and every block of the fork is valid relative to the
